@@ -101,7 +101,7 @@ func vsS19() {
 	if mode == vManual {
 		select {
 		case e.refresh <- nil:
-		case <-e.p.done:
+		case <-vBarDone(b0):
 		}
 	}
 	if b0 != nil {
